@@ -30,7 +30,7 @@ KNOWN = [
     {
         "id": "C18-F3-timeout-unparse-truncates",
         "property": "C18",
-        "what": "ParseTimeout.unparse truncates: 1500ms -> 1.5 -> '1s' -> 1.0; 0.5ms -> '0ms'; and (float product) 1.001ms-style values; "
+        "what": "ParseTimeout.unparse truncates: 1500ms -> 1.5 -> '1s' -> 1.0; 0.5ms -> '0ms' (only whole ms below 1 s and whole seconds survive); "
                 "python -m halmos.config writes a different timeout than the one given",
         "match": {"codec": "timeout", "defect": "roundtrip"},
     },
@@ -167,6 +167,28 @@ def gen_stack_cases(tier, r):
                     vals[nm] = r.choice(OPTS[nm][1])
             layers.append([src, {k2: (sorted(v) if isinstance(v, frozenset) else v) for k2, v in vals.items()}])
         cases.append({"base_default": base_default, "layers": layers})
+    # exhaustive grids: every stack up to height H over all sources 1..5 x {set, unset} for one
+    # option (distinct value per layer), and every stack up to height H2 over
+    # sources x {solver set/unset} x {solver_command unset / '' / 'cmdA'}
+    import itertools
+
+    H, H2 = (3, 2) if tier == "quick" else (5, 3)
+    for h in range(1, H + 1):
+        for combo in itertools.product([(s, b) for s in (1, 2, 3, 4, 5) for b in (0, 1)], repeat=h):
+            layers = [[s, ({"loop": k} if b else {})] for k, (s, b) in enumerate(combo)]
+            cases.append({"base_default": False, "layers": layers, "grid": "loop"})
+    per = [(s, so, c) for s in (1, 2, 3, 4, 5) for so in (None, "z3") for c in (None, "", "cmdA")]
+    for h in range(1, H2 + 1):
+        for combo in itertools.product(per, repeat=h):
+            layers = []
+            for s, so, c in combo:
+                v = {}
+                if so is not None:
+                    v["solver"] = so
+                if c is not None:
+                    v["solver_command"] = c
+                layers.append([s, v])
+            cases.append({"base_default": False, "layers": layers, "grid": "solver"})
     return cases
 
 
@@ -872,7 +894,10 @@ def run(rep, tier):
         rep.case({"runner": c}, nontrivial=annotated > 0)
         rec = got["recorded"]
         if got["status"] != 0 or [(a, b2) for a, b2, _ in rec] != [(a, b2) for a, b2, _ in exp]:
-            fail("broken-tie", f"fabricated project did not run as expected: status={got['status']} functions={[(a, b2) for a, b2, _ in rec]} log={got['log'][-300:]}", {"tie": "X-runner", "runner": c})
+            # the project is well-formed and every annotation in it is valid: the property says it
+            # runs every test function with the expected config; aborting / skipping is a failure
+            fail("failing-input", f"a well-formed annotated project is not run as the property says: status={got['status']} functions run={[(a, b2) for a, b2, _ in rec]} expected={[(a, b2) for a, b2, _ in exp]} log={got['log'][-300:]}; project = {json.dumps(c)[:600]}",
+                 {"tie": "X-runner", "runner": c, "status": str(got["status"])}, sig={"tie": "runner", "option": "(aborted)"})
             continue
         width = 3 * len(OPTS) + 2
         for k, (cn, sig, ls) in enumerate(exp):
@@ -886,6 +911,9 @@ def run(rep, tier):
                 fail("broken-tie", f"model and implementation disagree on the config of {cn}.{sig}: {mp}", {"tie": "X-runner", "runner": c, "contract": cn, "function": sig, **mp})
                 break
     rep.coverage["runner_functions_checked"] = nfun
+    rep.coverage["exhaustive"] = True
+    rep.coverage["exhaustive_note"] = ("X-stack includes every stack of height <= %d over sources 1..5 x {set, unset} for one option and every stack of height <= %d over "
+                                       "sources x {solver set/unset} x {solver_command unset/''/'cmdA'}; X-codec includes every integer-ms timeout below the bound") % ((3, 2) if tier == "quick" else (5, 3))
 
     # ---------------- X-codec
     calls = []
